@@ -348,6 +348,14 @@ func (m *obsModel) observe(n *e1Node, e *logEntry, outs []outMsg, before *priv) 
 				"Banned":      fmt.Sprint(sortedMap(cfg.Banned)),
 				"Bridges":     fmt.Sprint(sortedMap(cfg.TrustedBridges)),
 			}
+			var origins []string
+			for k, v := range cfg.WhitelistedOrigins {
+				if v {
+					origins = append(origins, k)
+				}
+			}
+			sort.Strings(origins)
+			want["Origins"] = fmt.Sprint(origins)
 			var ops, svcs []string
 			for _, o := range after.Operators {
 				ops = append(ops, fmt.Sprintf("{%s %s}", o[0], o[1]))
@@ -366,8 +374,9 @@ func (m *obsModel) observe(n *e1Node, e *logEntry, outs []outMsg, before *priv) 
 				"CaptchaReq":  fmt.Sprint(after.CaptchaReq),
 				"Banned":      fmt.Sprint(sortedMap(after.Banned)),
 				"Bridges":     fmt.Sprint(sortedMap(after.Bridges)),
+				"Origins":     fmt.Sprint(append([]string(nil), after.Origins...)),
 			}
-			for _, k := range []string{"Operators", "Services", "Expiration", "MaxSessions", "MaxChannels", "CaptchaURL", "CaptchaKey", "CaptchaReq", "Banned", "Bridges"} {
+			for _, k := range []string{"Operators", "Services", "Expiration", "MaxSessions", "MaxChannels", "CaptchaURL", "CaptchaKey", "CaptchaReq", "Banned", "Bridges", "Origins"} {
 				if got[k] != want[k] {
 					r.violate("C16", "config-not-installed", "config-field-not-installed:"+k, fmt.Sprintf("index %d: after applying the configuration update (revision %d) %s in force is %s, the update says %s", e.Index, msg.Revision, k, got[k], want[k]))
 				}
